@@ -420,7 +420,8 @@ def intersect1d(ar1, ar2, assume_unique=False, return_indices=False):
         return_indices=return_indices,
     )
     if return_indices:
-        return retv
+        # (common values, indices into ar1, indices into ar2): only the values carry units
+        return (retv[0] * ar1.units, *retv[1:])
     else:
         return retv * ar1.units
 
